@@ -31,8 +31,8 @@ type clCase struct {
 	Enable bool     `json:"enable"`
 	Calls  []clSite `json:"calls"`
 	Seen   []struct {
-		Loc int    `json:"loc"`
-		Hit bool   `json:"hit"`
+		Loc int  `json:"loc"`
+		Hit bool `json:"hit"`
 	} `json:"seen"`
 }
 
